@@ -157,6 +157,16 @@ func (c *Ctx) setterMap(fd *ast.FuncDecl, depth int) *copyMap {
 			for i := range st.Lhs {
 				lp, lok := c.apath(st.Lhs[i])
 				rp, rok := c.apath(st.Rhs[i])
+				// whole-struct copy: *recv = val.Part, recv.Part = val.Part
+				if lok && rok && lp.Root == recv && rp.Root == val {
+					lt, rt := c.typeOf(st.Lhs[i]), c.typeOf(st.Rhs[i])
+					if lt != nil && rt != nil && isStruct(derefType(lt)) && types.Identical(derefType(lt), derefType(rt)) && len(leafFields(lt)) > 0 {
+						for leaf := range leafFields(lt) {
+							cm.m[leaf] = leaf
+						}
+						continue
+					}
+				}
 				if !lok || lp.Root != recv || len(lp.Steps) == 0 {
 					cm.other = append(cm.other, exprString(st.Lhs[i]))
 					continue
@@ -674,6 +684,21 @@ func (c *Ctx) clearTriple(rule, fn string, st *ast.IfStmt, recv, doneObj types.O
 	zeroStore := false
 	var extra []string
 	for i, s := range st.Body.List {
+		// record through a helper: done.add("keyword", recv.F)
+		if es, isE := s.(*ast.ExprStmt); isE {
+			if call, isC := es.X.(*ast.CallExpr); isC && len(call.Args) == 2 && c.isRecordHelper(call, doneObj) {
+				recName, _ = c.constString(call.Args[0])
+				if p, ok := c.apath(call.Args[1]); ok && p.Root == recv {
+					recField = lastStep(p)
+				}
+				if recIdx < 0 {
+					recIdx = i
+				} else {
+					extra = append(extra, "second record")
+				}
+				continue
+			}
+		}
 		as, ok := s.(*ast.AssignStmt)
 		if !ok || len(as.Lhs) != 1 || len(as.Rhs) != 1 || as.Tok != token.ASSIGN {
 			extra = append(extra, fmt.Sprintf("%T", s))
@@ -759,4 +784,64 @@ func (c *Ctx) clearTriple(rule, fn string, st *ast.IfStmt, recv, doneObj types.O
 	if clearedField != guard {
 		cleared[guard] = cleared[guard] || false
 	}
+}
+
+// isRecordHelper: a method called on the records slice whose body appends, to its own receiver, a record built
+// from its two parameters as (Validation, Value).
+func (c *Ctx) isRecordHelper(call *ast.CallExpr, doneObj types.Object) bool {
+	se, ok := unparen(call.Fun).(*ast.SelectorExpr)
+	if !ok || doneObj == nil {
+		return false
+	}
+	id, ok := unparen(se.X).(*ast.Ident)
+	if !ok || c.objOf(id) != doneObj {
+		return false
+	}
+	g, ok := c.callee(call).(*types.Func)
+	if !ok || g.Pkg() != c.Types {
+		return false
+	}
+	gfd := c.decl(g)
+	if gfd == nil || gfd.Body == nil || len(gfd.Body.List) != 1 {
+		return false
+	}
+	recv, p0, p1 := c.recvObj(gfd), c.paramObj(gfd, 0), c.paramObj(gfd, 1)
+	as, ok := gfd.Body.List[0].(*ast.AssignStmt)
+	if !ok || len(as.Lhs) != 1 || len(as.Rhs) != 1 || recv == nil || p0 == nil || p1 == nil {
+		return false
+	}
+	lp, ok := c.apath(as.Lhs[0])
+	if !ok || lp.Root != recv || len(lp.Steps) != 0 {
+		return false
+	}
+	ap, ok := unparen(as.Rhs[0]).(*ast.CallExpr)
+	if !ok || !c.isBuiltin(ap, "append") || len(ap.Args) != 2 {
+		return false
+	}
+	if bp, ok := c.apath(ap.Args[0]); !ok || bp.Root != recv {
+		return false
+	}
+	lit, ok := unparen(ap.Args[1]).(*ast.CompositeLit)
+	if !ok {
+		return false
+	}
+	okName, okVal := false, false
+	for _, el := range lit.Elts {
+		kv, ok := el.(*ast.KeyValueExpr)
+		if !ok {
+			return false
+		}
+		k, _ := kv.Key.(*ast.Ident)
+		v, _ := unparen(kv.Value).(*ast.Ident)
+		if k == nil || v == nil {
+			return false
+		}
+		switch k.Name {
+		case "Validation":
+			okName = c.objOf(v) == p0
+		case "Value":
+			okVal = c.objOf(v) == p1
+		}
+	}
+	return okName && okVal
 }
